@@ -17,6 +17,21 @@
                          debug-build semantics, which is what the harness builds; a release build wraps instead)
      migration/scan_task.rs  pre_block: start_blocking; poll blocking_done; the handle is dropped later (stop) or
                          earlier when the blocking timeout cancels the future: a blocker polls at most `polls` times.
+   Shared-memory accesses of TaskBlockingQueue::send in program order (all explicit atomics are Ordering::SeqCst):
+     1  running_cmd.fetch_add(1)                    RefAutoCounter::new                          [ref_inc]
+     2  blocking_state.inner.load() -> (count,term) get_blocking_state / BiAtomicU32::load       [state_load]
+     count = 0 and the hint allows forwarding:
+     3a running_cmd.fetch_add(1)                    CounterTask::new / AutoCounter::new          [task_inc]
+     4a inner_sender.send(counter_task)             the hand-off                                 [handoff]
+     5a (inner error only) running_cmd.fetch_sub(1) the CounterTask is dropped                   [task_dec]
+     6a running_cmd.fetch_sub(1)                    RefAutoCounter::drop at return               [ref_dec]
+     count = 0 and the hint says blocking:
+     3b running_cmd.fetch_sub(1)                    RefAutoCounter::drop, return Err(Retry)      [ref_dec]
+     count > 0:
+     3c running_cmd.fetch_sub(1)                    drop(counter)                                [ref_dec]
+     4c queue_sender.send(cmd_task)                 crossbeam unbounded channel                  [enqueue]
+     5c blocking_state.inner.load()                 second get_blocking_state                    [state_load]
+     6c (count = 0 only) release_all: repeat queue_receiver.try_recv() [try_recv]; blocking_task_sender.send(task) [redispatch]
    The code uses Ordering::SeqCst for every atomic access; the model is an interleaving (sequentially consistent)
    semantics. crossbeam channel send / try_recv are single atomic actions here.
    Not modelled: the u64/i64 wrap-around of the atomics themselves (needs 2^63 threads), the Disconnected answer of
